@@ -393,12 +393,6 @@ Qed.
 
 (* ------------------------------------------------------------------ Keeper.Slash ---- *)
 
-(* no at-risk undelegation of the current block when the infraction is in the current block
-   (the code skips the whole undelegation walk in that case) *)
-Definition quirk_free (s : st) (e : env) (q : sprm) : bool :=
-  (q_event q <? v_height e) ||
-  forallb (fun r => negb (at_risk (q_op q) (q_event q) r) || (u_actual r =? 0)) (s_recs s).
-
 Lemma slash_not_ok s e q : snd (slash s e q) <> ROk -> fst (slash s e q) = s.
 Proof.
   unfold slash. destruct (negb (check_param (v_height e) q)); [reflexivity|].
@@ -415,7 +409,7 @@ Lemma slash_assets_sinfos_m s e q f :
 Proof.
   unfold slash_assets. destruct (op_value (v_assets e) (q_op q) (s_pools s)) as [total| |]; try exact I.
   destruct (total =? 0); [exact I|].
-  destruct (if q_event q <? v_height e then _ else _) as [recs' exu].
+  destruct (if q_event q <=? v_height e then _ else _) as [recs' exu].
   destruct (walk_pools _ _ _ _) as [pools' exp]. reflexivity.
 Qed.
 
@@ -440,7 +434,7 @@ Proof.
   destruct (op_value (v_assets e) (q_op q) (s_pools s)) as [total| |] eqn:Ev; try discriminate.
   - destruct (Z.eqb_spec total 0) as [E0|E0].
     + intros _. subst. apply op_value_spec. assumption.
-    + destruct (if q_event q <? v_height e then _ else _) as [recs' exu].
+    + destruct (if q_event q <=? v_height e then _ else _) as [recs' exu].
       destruct (walk_pools _ _ _ _) as [pools' exp].
       destruct (store_sinfo _ _ _ _ _); discriminate.
   - exfalso. eapply op_value_no_panic. eassumption.
@@ -448,7 +442,7 @@ Qed.
 
 (* what SlashAssets does, field by field *)
 Lemma slash_assets_spec s e q f :
-  st_nonneg s = true -> env_sane e = true -> quirk_free s e q = true -> 0 <= f -> 0 <= q_power q ->
+  st_nonneg s = true -> env_sane e = true -> q_event q <= v_height e -> 0 <= f -> 0 <= q_power q ->
   match slash_assets s e q f with
   | Ok (s1, ex) =>
       priced (v_assets e) (q_op q) (s_pools s) = true /\
@@ -482,7 +476,7 @@ Proof.
   pose proof (walk_pools_fst p (q_op q) (s_slists s) (s_pools s)) as Wp1.
   pose proof (walk_pools_snd p (q_op q) (s_slists s) (s_pools s)) as Wp2.
   destruct (walk_pools p (q_op q) (s_slists s) (s_pools s)) as [pools' exp]. simpl in Wp1, Wp2.
-  destruct (q_event q <? v_height e) eqn:Elt.
+  destruct (q_event q <=? v_height e) eqn:Elt.
   - pose proof (walk_recs_fst p (q_op q) (q_event q) (s_recs s)) as W1.
     destruct (walk_recs p (q_op q) (q_event q) (s_recs s)) as [recs' exu] eqn:Ew. simpl in W1.
     cbn [s_pools s_recs s_delegs s_slists s_sinfos]. subst recs' pools'.
@@ -491,24 +485,15 @@ Proof.
       apply andb_prop in Hr. destruct Hr as [Hr1 Hr2]. apply Z.leb_le in Hr1, Hr2. apply rec_ok_step; assumption.
     + apply recs_no_increase; assumption.
     + rewrite observed_rec_cuts_step, Ew, observed_pool_cuts_step, Wp2. reflexivity.
-  - cbn [s_pools s_recs s_delegs s_slists s_sinfos]. subst pools'.
-    unfold quirk_free in Hq. rewrite Elt in Hq. simpl in Hq.
-    repeat split; try assumption.
-    + rewrite forall2b_same. apply forallb_forall. intros r Hr.
-      rewrite forallb_forall in Hq, Hnr. specialize (Hq r Hr). specialize (Hnr r Hr).
-      apply andb_prop in Hnr. destruct Hnr as [_ Hr2]. apply Z.leb_le in Hr2.
-      apply rec_ok_same; [assumption|assumption|].
-      apply orb_prop in Hq. destruct Hq as [Hq|Hq]; [left; apply negb_true_iff; assumption|right; apply Z.eqb_eq; assumption].
-    + apply recs_no_increase_same. assumption.
-    + rewrite observed_rec_cuts_same, observed_pool_cuts_step, Wp2 by assumption. reflexivity.
+  - apply Z.leb_gt in Elt. lia.
 Qed.
 
 Lemma slash_executed s e q :
-  st_nonneg s = true -> env_sane e = true -> quirk_free s e q = true ->
+  st_nonneg s = true -> env_sane e = true ->
   snd (slash s e q) = ROk ->
   exists f, q_factor q = Some f /\ in_domain e q = true /\ executed_ok s e q f (fst (slash s e q)) = true.
 Proof.
-  intros Hnn Hsane Hq. unfold slash.
+  intros Hnn Hsane. unfold slash.
   destruct (check_param (v_height e) q) eqn:Ecp; simpl; [|discriminate].
   unfold check_param in Ecp.
   destruct (q_factor q) as [f|] eqn:Ef; [|discriminate].
@@ -518,7 +503,7 @@ Proof.
   { destruct (q_dogfood q).
     - apply negb_true_iff in Hpow. apply Z.leb_gt in Hpow. lia.
     - apply Z.eqb_eq in Hpow. lia. }
-  pose proof (slash_assets_spec s e q f Hnn Hsane Hq Hf0 Hpw) as Spec.
+  pose proof (slash_assets_spec s e q f Hnn Hsane Hev Hf0 Hpw) as Spec.
   destruct (slash_assets s e q f) as [[s1 ex]| |]; simpl; try discriminate.
   destruct Spec as [Hpr [Hvpos [Epools [Hrok [Hrni [Edel [Esl [Esi Eex]]]]]]]].
   unfold store_sinfo. rewrite Esi.
@@ -549,19 +534,16 @@ Qed.
 
 (* ------------------------------------------------------------------ every entry point ---- *)
 
-Definition call_quirk_free (s : st) (e : env) (c : call) : bool :=
-  match call_prm e c with Some q => quirk_free s e q | None => true end.
-
 Lemma step_ok_slash_direct s e q :
-  st_nonneg s = true -> env_sane e = true -> quirk_free s e q = true ->
+  st_nonneg s = true -> env_sane e = true ->
   step_ok s e (CSlash q) (fst (slash s e q)) (snd (slash s e q)) = true.
 Proof.
-  intros Hnn Hs Hq. unfold step_ok. simpl.
+  intros Hnn Hs. unfold step_ok. simpl.
   destruct (has_sinfo (s_sinfos s) (q_op q) (q_avs q) (q_id q)) eqn:Ed.
   - destruct (slash_dup s e q Ed) as [H1 H2]. rewrite H1, st_eqb_refl. simpl.
     destruct (snd (slash s e q)); try reflexivity. contradiction.
   - destruct (snd (slash s e q)) eqn:Er.
-    + destruct (slash_executed s e q Hnn Hs Hq Er) as [f [Hf [Hd He]]]. rewrite Hf, Hd, He. reflexivity.
+    + destruct (slash_executed s e q Hnn Hs Er) as [f [Hf [Hd He]]]. rewrite Hf, Hd, He. reflexivity.
     + rewrite slash_not_ok by (rewrite Er; discriminate). apply st_eqb_refl.
     + rewrite slash_not_ok by (rewrite Er; discriminate). rewrite st_eqb_refl. simpl.
       destruct (slash_panic s e q Er) as [H1 H2]. rewrite H1, H2. reflexivity.
@@ -571,18 +553,18 @@ Proof.
 Qed.
 
 Lemma step_ok_reason s e c q :
-  st_nonneg s = true -> env_sane e = true -> quirk_free s e q = true ->
+  st_nonneg s = true -> env_sane e = true ->
   (match c with CSlash _ => False | _ => True end) ->
   call_prm e c = Some q -> (exists f, q_factor q = Some f) ->
   let r := snd (slash s e q) in
   step_ok s e c (fst (slash s e q)) (match r with RPanic => RPanic | _ => RZero end) = true.
 Proof.
-  intros Hnn Hs Hq Hc Hprm [f Hf] r. unfold step_ok. rewrite Hprm.
+  intros Hnn Hs Hc Hprm [f Hf] r. unfold step_ok. rewrite Hprm.
   destruct (has_sinfo (s_sinfos s) (q_op q) (q_avs q) (q_id q)) eqn:Ed.
   - destruct (slash_dup s e q Ed) as [H1 H2]. rewrite H1, st_eqb_refl. simpl. subst r.
     destruct (snd (slash s e q)); reflexivity.
   - subst r. destruct (snd (slash s e q)) eqn:Er.
-    + destruct (slash_executed s e q Hnn Hs Hq Er) as [f' [Hf' [Hd He]]]. rewrite Hf', Hd, He.
+    + destruct (slash_executed s e q Hnn Hs Er) as [f' [Hf' [Hd He]]]. rewrite Hf', Hd, He.
       destruct c; try contradiction; rewrite orb_true_r; reflexivity.
     + rewrite slash_not_ok by (rewrite Er; discriminate). rewrite st_eqb_refl, Hf. destruct c; try contradiction; reflexivity.
     + rewrite slash_not_ok by (rewrite Er; discriminate). rewrite st_eqb_refl. simpl.
@@ -591,19 +573,19 @@ Proof.
 Qed.
 
 Lemma step_meets_statement s e c :
-  st_nonneg s = true -> env_sane e = true -> call_quirk_free s e c = true ->
+  st_nonneg s = true -> env_sane e = true ->
   step_ok s e c (fst (step s e c)) (snd (step s e c)) = true.
 Proof.
-  intros Hnn Hs Hq. unfold call_quirk_free in Hq. destruct c as [q|op ev pw f inf|fd ev pw f inf].
+  intros Hnn Hs. destruct c as [q|op ev pw f inf|fd ev pw f inf].
   - simpl in *. apply step_ok_slash_direct; assumption.
   - simpl in *. destruct (v_dog_avs e) as [avs|] eqn:Ea.
-    + pose proof (step_ok_reason s e (COpReason op ev pw f inf) (reason_prm avs op ev pw f inf) Hnn Hs Hq I) as H.
+    + pose proof (step_ok_reason s e (COpReason op ev pw f inf) (reason_prm avs op ev pw f inf) Hnn Hs I) as H.
       simpl in H. rewrite Ea in H. specialize (H eq_refl (ex_intro _ f eq_refl)).
       destruct (slash s e (reason_prm avs op ev pw f inf)) as [s' r]. exact H.
     + unfold step_ok. simpl. rewrite Ea, st_eqb_refl. reflexivity.
   - destruct fd as [op|].
     + simpl in *. destruct (v_dog_avs e) as [avs|] eqn:Ea.
-      * pose proof (step_ok_reason s e (CDogReason (Some op) ev pw f inf) (reason_prm avs op ev pw f inf) Hnn Hs Hq I) as H.
+      * pose proof (step_ok_reason s e (CDogReason (Some op) ev pw f inf) (reason_prm avs op ev pw f inf) Hnn Hs I) as H.
         simpl in H. rewrite Ea in H. specialize (H eq_refl (ex_intro _ f eq_refl)).
         destruct (slash s e (reason_prm avs op ev pw f inf)) as [s' r]. exact H.
       * unfold step_ok. simpl. rewrite Ea, st_eqb_refl. reflexivity.
@@ -737,7 +719,7 @@ Proof.
   generalize dependent (Z.min P (dec_quo (q_power q * f) total)). intros p Hp0 HpP.
   pose proof (walk_pools_fst p (q_op q) (s_slists s) (s_pools s)) as Wp1.
   destruct (walk_pools p (q_op q) (s_slists s) (s_pools s)) as [pools' exp]. simpl in Wp1.
-  destruct (q_event q <? v_height e).
+  destruct (q_event q <=? v_height e).
   - pose proof (walk_recs_fst p (q_op q) (q_event q) (s_recs s)) as W1.
     destruct (walk_recs p (q_op q) (q_event q) (s_recs s)) as [recs' exu]. simpl in W1.
     unfold st_nonneg. cbn [s_pools s_recs s_delegs]. subst.
